@@ -109,7 +109,10 @@ def run(ck):
     histories = []
     for h in range(n_hist):
         r = ck.rng.fork(("hist", h))
-        ks = list(range(40));
+        ks, seen_t = [], set()
+        for k_ in range(40):                     # one kind per DISTINCT state shape (template(0) == template(2))
+            if template(k_) not in seen_t:
+                seen_t.add(template(k_)); ks.append(k_)
         # shuffle
         for i in range(len(ks) - 1, 0, -1):
             j = r.below(i + 1); ks[i], ks[j] = ks[j], ks[i]
